@@ -292,6 +292,15 @@ int main(int argc, char** argv) {
                    judge_literal(u_escape(s, 1) + "A", r.below(32), "lone-high");                // high followed by a plain byte
                    judge_literal(u_escape(s, 0) + "\\n", r.below(32), "lone-high");              // high followed by a short escape
                    judge_literal(u_escape(s, 0) + "\\u", r.below(32), "lone-high");              // truncated second escape
+                   // the second escape's introducer is wrong in exactly one of its two bytes, four low-surrogate digits follow
+                   {
+                     char lo[8];
+                     snprintf(lo, sizeof lo, "%04x", 0xdc00 + (unsigned)r.below(1024));
+                     judge_literal(u_escape(s, 0) + "\\n" + lo, r.below(32), "high+wrong-introducer");
+                     judge_literal(u_escape(s, 0) + "Xu" + lo, r.below(32), "high+wrong-introducer");
+                     judge_literal(u_escape(s, 0) + "\\U" + lo, r.below(32), "high+wrong-introducer");
+                     judge_literal(u_escape(s, 0) + "\\\\u" + lo, r.below(32), "high+wrong-introducer");
+                   }
                    judge_literal(filler(r.range(1, 40), r) + u_escape(s, 0) + filler(r.range(1, 40), r), r.below(32), "lone-high");
                    // a valid pair followed by another high / low
                    judge_literal(u_escape(s, 0) + u_escape(0xdc00 + (uint32_t)r.below(1024), 0) + u_escape(0xdc00 + (uint32_t)r.below(1024), 0), r.below(32), "pair+lone-low");
